@@ -64,7 +64,7 @@ class DirectoryMatcher:
         """
         if dir_path == "/":
             return self._check_root_match(dir_path, path_str)
-        if path_str.startswith(dir_path):
+        if path_str == dir_path or path_str.startswith(dir_path.rstrip("/") + "/"):
             depth = len(dir_path.split("/"))
             return True, depth
         return False, -1
